@@ -290,6 +290,8 @@ func checkC13(c *Ctx) {
 
 	// ---- R9 every HTTP method is indexed (an unlisted method's endpoints are never compared)
 	checkMethodExhaustive(c, "C13.R9.methods", pk, 1)
+	checkSharedGuards(c, "C13.R4.shared-guards", r, bindSites(c, r, "C13.R4.shared-guards"))
+	checkMemoKey(c, "C13.R4.memo-key", r)
 	c.Rule("C13.R4.location-key", "every location a shared schema is referenced from is compared: the visited-set key reads every field of the location", 4)
 	checkLocationKey(c, "C13.R4.location-key", pk)
 	// a definition is marked as referenced (hence skipped by the definitions pass) only by a
